@@ -4,6 +4,7 @@ import (
 	"context"
 	"fmt"
 	"sync"
+	"sync/atomic"
 	"time"
 
 	"verifharness/abs"
@@ -36,6 +37,8 @@ type wireMsg struct {
 	AVPs    []wireAVP
 	Raw     []byte
 }
+
+var inbandSeq uint32
 
 func be32(b []byte) uint32 {
 	return uint32(b[0])<<24 | uint32(b[1])<<16 | uint32(b[2])<<8 | uint32(b[3])
@@ -174,7 +177,9 @@ func buildCER(c *cerSpec, dp *dict.Parser) []byte {
 	case "zero":
 		m.NewAVP(avp.InbandSecurityID, avp.Mbit, 0, datatype.Unsigned32(0))
 	case "nonzero":
-		m.NewAVP(avp.InbandSecurityID, avp.Mbit, 0, datatype.Unsigned32(1))
+		// the class "non-zero" is more than TLS (1): cycle through other members, the boundary values included
+		k := atomic.AddUint32(&inbandSeq, 1)
+		m.NewAVP(avp.InbandSecurityID, avp.Mbit, 0, datatype.Unsigned32([]uint32{1, 2, 0xffffffff, 7, 0x80000000, 256, 3}[k%7]))
 	}
 	for _, it := range c.Items {
 		a := appAVP(it)
